@@ -9,3 +9,5 @@ CONSTANTS
  Datas = {"d0", "d1"}
  Prefixes <- BfsPrefixes
  MaxOps = 4
+ Styles = {"write"}
+ EmptyData = "d0"
